@@ -95,6 +95,14 @@ TraceNext ==
                      /\ canRelease' = (IF holder = t THEN FALSE ELSE canRelease)
                      /\ added' = added \cup {a.add}
                      /\ UNCHANGED <<cell, published, win, open, snaps, local, adding, pending>>
+                [] k = "upd.abort.begin" ->        \* the updater is about to die holding the lock: unwinding will release it
+                     /\ Judge(holder = t, "mutex_held", [holder |-> holder])
+                     /\ canRelease' = (holder = t)
+                     /\ UNCHANGED <<cell, holder, published, win, open, snaps, local, adding, added, pending>>
+                [] k = "upd.abort" ->              \* it has died; the (poisoned) mutex is free again
+                     /\ holder' = (IF holder = t THEN 0 ELSE holder)
+                     /\ canRelease' = (IF holder = t THEN FALSE ELSE canRelease)
+                     /\ UNCHANGED <<cell, published, win, open, snaps, local, adding, added, pending>>
                 [] k = "panic" ->
                      /\ Judge(FALSE, "panic", [t |-> t])
                      /\ UNCHANGED <<cell, holder, canRelease, published, win, open, snaps, local, adding, added, pending>>
